@@ -47,9 +47,20 @@ PROPS = {
                      "fault-free and faulted sink configurations are separate runs. evaluations = runs (calls); distinct = distinct (format-shape signature, "
                      "argument type vector, sink kind, capacity class, faulted?) tuples; non-trivial = the output contains padding or a multi-unit "
                      "character AND at least one flush/overflow/refill happened inside the call"),
+    "C20": dict(engine="simB", level="exploration", variants=["sched"], quick={"sched": 8000}, thorough={"sched": 300},
+                rule="one run = 2-4 real caller threads, each executing a seeded program of 2-8 operations (const members on shared immutable strings and "
+                     "buffers, arbitrary operations on thread-private objects) under a seeded scheduler that decides every interleaving at memory-access "
+                     "granularity (serial / rare / medium / frequent preemption), in a fresh process so that first-use effects are concurrent; every instrumented "
+                     "access goes through a happens-before race detector and every operation's result digest is compared with the same program run alone. "
+                     "distinct = distinct (thread programs, recorded switch list) pairs; non-trivial = at least one preemption was injected inside an operation"),
 }
 DET_SAMPLE = {"quick": 240, "thorough": 3000}
 ENGINE_PARTS = {
+    "simB": (["all string_theory headers of /repo's working tree, compiled with g++ -fsanitize=thread instrumentation (ABI only)", "real OS threads (pthreads) with genuine per-thread stacks, TLS, errno and exception unwinding",
+              "inline libstdc++ templates compiled into the instrumented TU (std::function, std::vector, std::basic_string)", "glibc / libstdc++.so internals (uninstrumented: a race located entirely inside them is not visible)"],
+             ["scheduler: one baton, threads parked on semaphores, every instrumented access / wrapped libc call is a possible preemption point chosen by the seed",
+              "own implementation of the __tsan_* entry points: vector-clock happens-before detector with 4-record shadow cells", "models of __cxa_guard_*, pthread_mutex_*, pthread_once and atomics (so synchronised code is not reported and cannot deadlock the baton)",
+              "link-time wrappers reporting the byte ranges of memcpy/memmove/memset/memcmp/memchr/strlen/wmem*/snprintf/strto*", "per-thread step clock (trace-pc), heap ledger"]),
     "simA": (["all string_theory headers of /repo's working tree (compiled into the simulator)", "libstdc++ containers, std::function, exceptions and iostreams used on the library's behalf",
               "glibc malloc/free underneath the heap seam"],
              ["heap seam: operator new/delete replacement with ledger, fault plan, fill patterns, reuse policy (simrt/heap.cpp)",
@@ -108,6 +119,7 @@ class Batch:
     def __init__(self, binpath, engine, prop, seed, workers):
         self.bin, self.engine, self.prop, self.seed, self.workers = binpath, engine, prop, seed, workers
         self.viol, self.summaries, self.per_run, self.restarts, self.sigs = [], [], {}, 0, set()
+        self.unsupported = False
         self.lock = threading.Lock()
 
     def _worker(self, w, start, stride, count, seconds, per_run, extra):
@@ -140,6 +152,10 @@ class Batch:
                     for k in range(0, len(data) - 7, 8):
                         self.sigs.add(data[k:k + 8])
             if p.returncode == 0:
+                break
+            if p.returncode == 4:
+                with self.lock:
+                    self.unsupported = True      # instrumented code used a blocking primitive the scheduler does not model: no verdict
                 break
             if p.returncode == 3:
                 # the worker stopped itself after reporting a violation (its memory may be corrupted): continue after that run
@@ -195,8 +211,14 @@ class Batch:
                     add(dst.setdefault(k, {}), v)
                 elif isinstance(v, (int, float)):
                     dst[k] = dst.get(k, 0) + v
+        pairs = set()
         for s in self.summaries:
             add(tot, s)
+            pairs.update(s.get("overlap_pairs", []))
+        if any("overlap_pairs" in s for s in self.summaries):
+            dim = self.summaries[0].get("overlap_dim", 96); nk = self.summaries[0].get("op_kinds", 1)
+            tot["overlap_dim"] = dim; tot["op_kinds"] = nk
+            tot["overlap_pairs_set"] = sorted(pairs)
         tot["distinct_nontrivial"] = len(self.sigs)
         return tot
 
@@ -245,7 +267,7 @@ def confirm_and_report(prop, bins, seed, batches, known):
     infra = False
     reported = 0
     for (cls, sk), items in sorted(groups.items(), key=lambda kv: (str(kv[0][0]), str(kv[0][1])))[:4]:
-        variant, v = sorted(items, key=lambda it: (it[0] != "plain", int(it[1].get("i", 0))))[0]
+        variant, v = sorted(items, key=lambda it: (it[0] == "asan", int(it[1].get("i", 0) or 0)))[0]
         binpath = os.path.join(bins[variant], PROPS[prop]["engine"])
         out = os.path.join(VERIF, "replays", "%s-%s-%s-%s.json" % (prop, variant, seed, v.get("i", "x")))
         env = dict(os.environ, SIM_VARIANT=variant)
@@ -334,17 +356,18 @@ def enum19(binpath, workers, known):
 def check_engine_a(prop, tier, seed):
     cfg = PROPS[prop]
     t_start = time.time()
-    bins = build_all(cfg["engine"], ["plain", "asan"])
+    variants = cfg.get("variants", ["plain", "asan"])
+    bins = build_all(cfg["engine"], variants)
     known, fixed = load_known()
     batches = []
-    for variant in ("plain", "asan"):
+    for variant in variants:
         binpath = os.path.join(bins[variant], cfg["engine"])
-        workers = NCPU if variant == "plain" else min(NCPU, 8)
+        workers = NCPU if variant != "asan" else min(NCPU, 8)
         b = Batch(binpath, cfg["engine"], prop, seed, workers)
         if tier == "quick":
-            b.run(count=cfg["quick"][variant], first=0 if variant == "plain" else 10 ** 7)
+            b.run(count=cfg["quick"][variant], first=0 if variant != "asan" else 10 ** 7)
         else:
-            b.run(seconds=cfg["thorough"][variant], first=0 if variant == "plain" else 10 ** 7)
+            b.run(seconds=cfg["thorough"][variant], first=0 if variant != "asan" else 10 ** 7)
         batches.append((variant, b))
     en = None
     if prop == "C19":
@@ -357,7 +380,7 @@ def check_engine_a(prop, tier, seed):
             eb2 = EB(); eb2.viol = en_asan["viol"]
             batches.append(("asan", eb2))
     # determinism proof on a sample (plain variant)
-    det_n, det_bad, det_missing = determinism(os.path.join(bins["plain"], cfg["engine"]), cfg["engine"], prop, seed, DET_SAMPLE[tier])
+    det_n, det_bad, det_missing = determinism(os.path.join(bins[variants[0]], cfg["engine"]), cfg["engine"], prop, seed, DET_SAMPLE[tier])
     infra = False
     if det_bad:
         log("INFRASTRUCTURE: %d of %d runs produced different history signatures when executed twice (first: index %s)" % (len(det_bad), det_n, det_bad[0]))
@@ -377,14 +400,22 @@ def check_engine_a(prop, tier, seed):
             if isinstance(v, dict):
                 d = tot.setdefault(k, {})
                 for kk, vv in v.items(): d[kk] = d.get(kk, 0) + vv
+            elif isinstance(v, list):
+                tot[k] = sorted(set(tot.get(k, [])) | set(v))
+            elif k in ("overlap_dim", "op_kinds"):
+                tot[k] = v
             else:
                 tot[k] = tot.get(k, 0) + v
+    unsupported = any(getattr(b, "unsupported", False) for _, b in batches)
+    if unsupported:
+        log("INFRASTRUCTURE: instrumented code called a blocking primitive the scheduler does not model (condition variable / rwlock): no verdict")
+        infra = True
     evaluations = tot.get("runs", 0)
     distinct = sum(pv["distinct_nontrivial"] for pv in per_variant.values())
     # signatures are identical across variants for the same index; indices differ between variants, so the sum counts distinct histories
     cov = {
         "evaluations": evaluations, "distinct_nontrivial": distinct, "rule": cfg["rule"],
-        "samples": dump_samples(os.path.join(bins["plain"], cfg["engine"]), prop, seed, [0, 1]),
+        "samples": dump_samples(os.path.join(bins[variants[0]], cfg["engine"]), prop, seed, [0, 1]),
         "seeds": {"verif_seed": seed, "plain_indices": "0..", "asan_indices": "10000000..", "run_seed": "mix(VERIF_SEED, property, index)"},
         "per_variant": per_variant,
         "operations_executed": tot.get("ops", tot.get("pairs", 0)), "invariant_evaluations": tot.get("checks", tot.get("pairs", 0)),
@@ -392,11 +423,17 @@ def check_engine_a(prop, tier, seed):
         "faults_fired": tot.get("faults", {}), "library_allocations_observed": tot.get("sut_allocs", 0),
         "exceptions_seen": tot.get("exceptions", {}),
         "rare_condition_probes": {k: v for k, v in tot.get("probes", {}).items()},
-        "engine_counters": {k: v for k, v in tot.items() if k in ("pairs", "calls", "rejected_by_format", "per_sink", "nontrivial_runs")},
+        "engine_counters": {k: v for k, v in tot.items() if k in ("pairs", "calls", "rejected_by_format", "per_sink", "nontrivial_runs", "events", "accesses_checked", "strategies", "sync_operations_modelled", "unsupported_primitive_runs")},
         "determinism": {"indices_run_twice": det_n, "worker_counts": [4, NCPU], "mismatches": len(det_bad)},
         "components_real": ENGINE_PARTS[cfg["engine"]][0], "components_simulated": ENGINE_PARTS[cfg["engine"]][1],
         "known_findings_seen": n_known, "fixed_entries_in_known_findings_file": len(fixed),
     }
+    if "overlap_pairs_set" in tot:
+        dim, nk = tot["overlap_dim"], tot["op_kinds"]
+        covered = {(x // dim, x % dim) for x in tot["overlap_pairs_set"] if x // dim < nk and x % dim < nk}
+        uncovered = [(a, b) for a in range(nk) for b in range(nk) if (a, b) not in covered]
+        cov["operation_kind_pairs_overlapped"] = {"covered": len(covered), "of": nk * nk, "meaning": "ordered pairs (X,Y): some thread was preempted inside an operation of kind X while another thread executed kind Y",
+                                                  "uncovered_first_20": uncovered[:20]}
     if en is not None:
         cells = sum(e["cells"] for e in en["E"]); points = sum(e["alloc_points"] for e in en["E"]); execs = sum(e["executions"] for e in en["E"])
         en_distinct = sum(s.get("distinct_nontrivial", 0) for s in en["summ"])
